@@ -131,12 +131,7 @@ type Shape struct {
 // default parameters on the position variants.
 func (s Shape) positionVariant() bool { return s.Spec != nil && s.Spec.Pos != nil }
 
-func (s Shape) PrimCount() int {
-	if s.Topo == "tri" {
-		return len(s.Idx) / 3
-	}
-	return len(s.Idx)
-}
+func (s Shape) PrimCount() int { return len(s.Idx) / meshlib.IndexSize(s.Topo) }
 
 func (s Shape) Has(a string) bool {
 	for _, x := range s.Attrs {
@@ -156,13 +151,7 @@ func ShapeOfSpec(s meshlib.Spec) Shape {
 }
 
 func ShapeOfSnap(s meshlib.Snap) Shape {
-	sh := Shape{Topo: "other", L: s.ALen, Idx: s.Idx}
-	switch s.Topo {
-	case modeling.TriangleTopology:
-		sh.Topo = "tri"
-	case modeling.PointTopology:
-		sh.Topo = "point"
-	}
+	sh := Shape{Topo: meshlib.TopoName(s.Topo), L: s.ALen, Idx: s.Idx}
 	for w := 0; w < 4; w++ {
 		sh.Attrs = append(sh.Attrs, s.Names[w]...)
 	}
@@ -375,12 +364,7 @@ func L(s meshlib.Spec) int {
 	return s.V
 }
 
-func idxFits(topo string, n int) bool {
-	if topo == "tri" {
-		return n%3 == 0
-	}
-	return true
-}
+func idxFits(topo string, n int) bool { return n%meshlib.IndexSize(topo) == 0 }
 
 // ---------------------------------------------------------------------------------------------
 // the alphabet
@@ -461,10 +445,7 @@ func setIndicesVariants(s Shape, thorough bool) []Params {
 	out := []Params{{Mode: "reverse", Idx: rev}, {Mode: "empty", Idx: []int{}}}
 	l := s.L
 	if l > 0 {
-		size := 3
-		if s.Topo != "tri" {
-			size = 1
-		}
+		size := meshlib.IndexSize(s.Topo)
 		last := make([]int, size)
 		for i := range last {
 			last[i] = l - 1
@@ -475,7 +456,7 @@ func setIndicesVariants(s Shape, thorough bool) []Params {
 	}
 	// inadmissible arguments (reported only)
 	out = append(out, Params{Mode: "out-of-range", Idx: append(append([]int{}, s.Idx...), l, l, l)})
-	if s.Topo == "tri" {
+	if meshlib.IndexSize(s.Topo) > 1 {
 		out = append(out, Params{Mode: "misfit", Idx: append(append([]int{}, s.Idx...), 0)})
 	}
 	return out
